@@ -434,6 +434,21 @@ func insertAll(ast spec.Val, s *tgen.Struct, depth int, visit func(spec.Val, str
 				visit(a, fmt.Sprintf("%s@%d", uv.T, id))
 			}
 		}
+		// runs: the same undeclared id twice in a row (with the same and with another type), and two undeclared ids
+		for k, uv := range unkVals {
+			if k%5 != 0 {
+				continue // runs start with every fifth of the unknown values
+			}
+			other := unkVals[(k+1)%len(unkVals)]
+			for _, second := range []spec.Field{{ID: ids[0], V: fixupListItems(uv)}, {ID: ids[0], V: fixupListItems(other)}, {ID: ids[len(ids)-1], V: fixupListItems(uv)}} {
+				if second.ID < ids[0] {
+					continue
+				}
+				a := ast
+				a.Fields = append(append(append([]spec.Field{}, ast.Fields[:pos]...), spec.Field{ID: ids[0], V: fixupListItems(uv)}, second), ast.Fields[pos:]...)
+				visit(a, fmt.Sprintf("run:%s,%s@%d,%d", uv.T, second.V.T, ids[0], second.ID))
+			}
+		}
 	}
 	if depth == 0 {
 		return
@@ -1271,7 +1286,7 @@ func Spec() *explore.Spec {
 			{Name: "reader-bytes", ShardDepth: 4, Body: readerBytes, Doc: "every Reader method of the 3 protocols over 5 kinds of io.Reader (bytes.Reader, bytes.Buffer, bufio.Reader, one-byte reads, data delivered together with EOF) on all byte strings <=2 over all 256 values (for the kinds other than bytes.Reader the first of two bytes from the class alphabet) and <=5 (6; <=3 (4) for those other kinds) over a 16-byte class alphabet: no panic, bounded allocation, io.EOF exactly for empty input, no value out of fewer bytes than the value takes, and no proper prefix of an accepted input yields another value"},
 			{Name: "toplevel-truncations", ShardDepth: 2, Body: toplevelTruncations, Doc: "31 values that are not structs (every scalar kind, strings, binaries, lists, lists of lists, maps, sets; one struct as control) x 3 protocols x {Unmarshal, Decoder over 5 kinds of io.Reader}: the complete encoding decodes to the value, every proper prefix fails with an unexpected-EOF class error (io.EOF for the empty one), Unmarshal reports a trailing byte"},
 			{Name: "truncations", ShardDepth: 2, Body: truncations, Bound: func(string) int { return 1 }, Doc: "valid encodings (struct types of 1-2 fields x id layouts x values x 3 protocols): every prefix must fail with an unexpected-EOF class error (io.EOF for the empty prefix), a trailing byte must be reported, every (position x 256) corruption decodes without panic and within the allocation budget (also in strict mode)"},
-			{Name: "unknown-insertion", ShardDepth: 2, Body: unknownInsertion, Bound: func(string) int { return 1 }, Doc: "one unknown field (ids below/in a gap/above/64+ above the declared ids, 32767) of every thrift type with nested values (20 values, depth 2) inserted at every field boundary of the top-level and nested structs: decoded value unchanged, through Unmarshal and through a Decoder over one of 4 other kinds of io.Reader (bytes.Buffer, 16-byte bufio.Reader, one-byte reads, data delivered with EOF) in rotation"},
+			{Name: "unknown-insertion", ShardDepth: 2, Body: unknownInsertion, Bound: func(string) int { return 1 }, Doc: "one unknown field (ids below/in a gap/above/64+ above the declared ids, 32767) of every thrift type with nested values (20 values, depth 2) inserted at every field boundary of the top-level and nested structs, alone and in runs of two (the same id with the same and with another type, two ids): decoded value unchanged, through Unmarshal and through a Decoder over one of 4 other kinds of io.Reader (bytes.Buffer, 16-byte bufio.Reader, one-byte reads, data delivered with EOF) in rotation"},
 			{Name: "required-and-strict", ShardDepth: 2, Body: requiredAndStrict, Bound: func(string) int { return 1 }, Doc: "each required field removed -> MissingField naming it; each field sent with each of the other 10 wire types -> TypeMismatch in strict mode, skipped without disturbing the other fields otherwise"},
 			{Name: "depth-ladder", ShardDepth: 3, HangSeconds: 300, MaxWorkers: 8, FatalPerCase: true, Body: depthLadder, Doc: "values nested 100 ... 4,000,000 deep by the sender in a field the target skips (lists, structs, maps in an unknown field; sets in a field of another declared type) x 3 protocols, cut off inside the innermost value: an error, no panic, no stack overflow"},
 			{Name: "depth-ladder-typed", ShardDepth: 3, HangSeconds: 300, MaxWorkers: 8, Body: depthLadderTyped, FatalKey: func(ch []int) string {
